@@ -30,6 +30,9 @@ func init() {
 			{Name: "keyword-loop-short", File: "token/token.go", Old: "for i := keyword_beg + 1; i < keyword_end; i++ {", New: "for i := keyword_beg + 1; i < keyword_end-1; i++ {", Expect: "keywords/xgo:init-loop"},
 			{Name: "precedence-without-operator", File: "token/token.go", Old: "return operator_beg <= tok && tok <= operator_end || tok >= additional_beg && tok <= additional_end2", New: "return operator_beg <= tok && tok <= operator_end", Expect: "precedence⇒operator/xgo:SRARROW"},
 			{Name: "tpl-scanner-wrong-token", File: "tpl/scanner/scanner.go", Old: "t.Tok = s.switch3(token.MUL, token.MUL_ASSIGN, '*', token.POW)", New: "t.Tok = s.switch3(token.MUL, token.MUL_ASSIGN, '*', token.MUL)", Expect: "spelling→token/tpl:**"},
+			{Name: "switch4-wrong-token", File: "scanner/scanner.go", Old: "\t\tif s.ch == '=' {\n\t\t\ts.next()\n\t\t\treturn tok3\n\t\t}\n\t\treturn tok2", New: "\t\tif s.ch == '=' {\n\t\t\ts.next()\n\t\t\treturn tok1\n\t\t}\n\t\treturn tok2", Expect: "switch-helper/xgo:Scanner.switch4"},
+			{Name: "tpl-len-short-range", File: "tpl/token/token.go", Old: "\tif tok > ' ' && tok < Token(len(tokens)) {\n\t\treturn len(tokens[tok])", New: "\tif tok > ' ' && tok < SHL_ASSIGN {\n\t\treturn len(tokens[tok])", Expect: "string-len/tpl:Len"},
+			{Name: "xgo-string-offbyone", File: "token/token.go", Old: "\tif 0 <= tok && tok < Token(len(tokens)) {\n\t\ts = tokens[tok]", New: "\tif 0 <= tok && tok < Token(len(tokens))/2 {\n\t\ts = tokens[tok]", Expect: "string-len/xgo:String"},
 			{Name: "tpl-len-other-table", File: "tpl/token/token.go", Old: "\t\treturn len(tokens[tok])\n", New: "\t\treturn 1\n", Expect: "string-len/tpl:Len"},
 		},
 	})
@@ -43,7 +46,7 @@ type tokenFamily struct {
 }
 
 func runC33(c *core.Check) {
-	prog := c.Load("./token", "./scanner", "./tpl/token", "./tpl/scanner")
+	prog := c.Load("./token", "./scanner", "./tpl/token", "./tpl/scanner", "go/scanner")
 	c.Exhaustive()
 	for _, fam := range []tokenFamily{{"xgo", "./token", "./scanner", true}, {"tpl", "./tpl/token", "./tpl/scanner", false}} {
 		tpk, spk := prog.Pkg(fam.tokPath), prog.Pkg(fam.scanPath)
@@ -109,6 +112,22 @@ func runC33(c *core.Check) {
 			}
 		}
 
+		// the operator switch is interpreted assuming the switch2/3/4 helpers have go/scanner's meaning: establish that
+		if gs := prog.Pkg("go/scanner"); gs != nil {
+			for _, h := range []string{"Scanner.switch2", "Scanner.switch3", "Scanner.switch4"} {
+				xf, gf := core.FindFuncDecl(spk, h), core.FindFuncDecl(gs, h)
+				if xf == nil {
+					continue // not used by this scanner (the trie extractor reports unknown helpers itself)
+				}
+				if gf == nil {
+					c.Bad("anchor", "go/scanner."+h, 0, "reference helper not found")
+					continue
+				}
+				c.Decide(normFunc(spk, xf) == normFunc(gs, gf), "switch-helper", fam.label+":"+h, xf.Pos(), "alpha-equivalent to go/scanner."+h,
+					"the trie of Scan is read assuming "+h+"(tok0, tok1, …) returns tok1 after '=', tok2 after ch2, tok3 after ch2 '=' and tok0 otherwise, as in go/scanner; the helper no longer matches the reference, so the spellings Scan recognises are no longer the ones in the table")
+			}
+		}
+
 		// String / Len read the same table
 		tableVar := tpk.Types.Scope().Lookup("tokens")
 		for _, m := range []string{"String", "Len"} {
@@ -120,26 +139,36 @@ func runC33(c *core.Check) {
 				c.Bad("anchor", fam.tokPath+".Token."+m, 0, "method not found")
 				continue
 			}
-			uses := false
 			recv := tpk.TypesInfo.Defs[fd.Recv.List[0].Names[0]]
-			ast.Inspect(fd.Body, func(n ast.Node) bool {
-				if ix, ok := n.(*ast.IndexExpr); ok && identObj(tpk.TypesInfo, ix.X) == tableVar && identObj(tpk.TypesInfo, ix.Index) == recv {
-					if m == "Len" {
-						// must be len(tokens[tok])
-						return true
-					}
-					uses = true
+			// fold the method over every token that has a spelling: the result must come from tokens[tok]
+			var bad []string
+			undecided := false
+			n := 0
+			for _, k := range tt.Consts {
+				sp := tt.Spelling[k]
+				if sp == "" {
+					continue
 				}
-				if call, ok := n.(*ast.CallExpr); ok && m == "Len" {
-					if id, ok := call.Fun.(*ast.Ident); ok && id.Name == "len" && len(call.Args) == 1 {
-						if ix, ok := ast.Unparen(call.Args[0]).(*ast.IndexExpr); ok && identObj(tpk.TypesInfo, ix.X) == tableVar && identObj(tpk.TypesInfo, ix.Index) == recv {
-							uses = true
-						}
-					}
+				if m == "Len" && (unicode.IsLetter(rune(sp[0])) || unicode.IsDigit(rune(sp[0])) || !k.Exported()) {
+					continue // Len is specified for operators only
 				}
-				return true
-			})
-			c.Decide(uses, "string-len", fam.label+":"+m, fd.Pos(), "reads tokens[tok]", "Token."+m+" does not read the spelling table entry of its receiver: it disagrees with the spelling the scanner recognises")
+				kv, _ := constant.Int64Val(constant.ToInt(k.Val()))
+				n++
+				switch foldTableRead(tpk.TypesInfo, fd, recv, tableVar, kv, m == "Len") {
+				case "table":
+				case "unknown":
+					undecided = true
+				default:
+					bad = append(bad, k.Name())
+				}
+			}
+			c.Analysed(fam.label+"_"+m+"_folded_over_tokens", n)
+			if undecided {
+				c.Undecided("string-len", fam.label+":"+m, fd.Pos(), "Token."+m+" is not a foldable guard around tokens[tok]")
+			} else {
+				c.Decide(len(bad) == 0 && n > 0, "string-len", fam.label+":"+m, fd.Pos(), core.Sprintf("returns the table entry of the receiver for each of the %d tokens with a spelling", n),
+					"Token."+m+" does not return (the length of) its receiver's entry in the spelling table for: "+strings.Join(bad, ", ")+" — it disagrees with the spelling the scanner recognises")
+			}
 		}
 
 		// Precedence > 0 ⇒ IsOperator
@@ -351,4 +380,163 @@ func constInt(info *types.Info, e ast.Expr) (int64, bool) {
 		return constant.Int64Val(tv.Value)
 	}
 	return 0, false
+}
+
+// foldTableRead interprets a small accessor (if-guards over the receiver, assignments, returns) for receiver value v and
+// reports where its result comes from: "table" (tokens[recv], or len(tokens[recv]) when wantLen), "other", or "unknown".
+func foldTableRead(info *types.Info, fd *ast.FuncDecl, recv, table types.Object, v int64, wantLen bool) string {
+	state := map[types.Object]string{}
+	isTableRead := func(e ast.Expr) bool {
+		e = ast.Unparen(e)
+		if wantLen {
+			call, ok := e.(*ast.CallExpr)
+			if !ok || len(call.Args) != 1 {
+				return false
+			}
+			if id, ok := call.Fun.(*ast.Ident); !ok || id.Name != "len" {
+				return false
+			}
+			e = ast.Unparen(call.Args[0])
+		}
+		ix, ok := e.(*ast.IndexExpr)
+		return ok && identObj(info, ix.X) == table && identObj(info, ix.Index) == recv
+	}
+	classify := func(e ast.Expr) string {
+		if isTableRead(e) {
+			return "table"
+		}
+		if o := identObj(info, e); o != nil {
+			if st, ok := state[o]; ok {
+				return st
+			}
+		}
+		return "other"
+	}
+	var result string
+	var results *ast.FieldList = fd.Type.Results
+	var exec func(list []ast.Stmt) bool // true = returned
+	cond := func(e ast.Expr) (bool, bool) {
+		if r, ok := evalPred(info, e, recv, v); ok {
+			return r, true
+		}
+		// `s == ""` / `s != ""` on a tracked local: a table entry of a token with a spelling is not empty
+		if be, ok := ast.Unparen(e).(*ast.BinaryExpr); ok && (be.Op == token.EQL || be.Op == token.NEQ) {
+			if o := identObj(info, be.X); o != nil {
+				if tv := info.Types[be.Y]; tv.Value != nil && tv.Value.Kind() == constant.String && constant.StringVal(tv.Value) == "" {
+					switch state[o] {
+					case "table":
+						return be.Op == token.NEQ, true
+					case "empty":
+						return be.Op == token.EQL, true
+					}
+				}
+			}
+		}
+		return false, false
+	}
+	unknown := false
+	exec = func(list []ast.Stmt) bool {
+		for _, s := range list {
+			switch x := s.(type) {
+			case *ast.IfStmt:
+				if x.Init != nil {
+					unknown = true
+					return true
+				}
+				r, ok := cond(x.Cond)
+				if !ok {
+					unknown = true
+					return true
+				}
+				if r {
+					if exec(x.Body.List) {
+						return true
+					}
+				} else if x.Else != nil {
+					var el []ast.Stmt
+					if b, ok := x.Else.(*ast.BlockStmt); ok {
+						el = b.List
+					} else {
+						el = []ast.Stmt{x.Else}
+					}
+					if exec(el) {
+						return true
+					}
+				}
+			case *ast.SwitchStmt:
+				if x.Tag != nil || x.Init != nil {
+					unknown = true
+					return true
+				}
+				var chosen *ast.CaseClause
+				var def *ast.CaseClause
+				for _, cs := range x.Body.List {
+					cc := cs.(*ast.CaseClause)
+					if cc.List == nil {
+						def = cc
+						continue
+					}
+					hit := false
+					for _, e := range cc.List {
+						r, ok := cond(e)
+						if !ok {
+							unknown = true
+							return true
+						}
+						if r {
+							hit = true
+						}
+					}
+					if hit {
+						chosen = cc
+						break
+					}
+				}
+				if chosen == nil {
+					chosen = def
+				}
+				if chosen != nil && exec(chosen.Body) {
+					return true
+				}
+			case *ast.AssignStmt:
+				if len(x.Lhs) != 1 || len(x.Rhs) != 1 {
+					unknown = true
+					return true
+				}
+				if o := identObj(info, x.Lhs[0]); o != nil {
+					st := classify(x.Rhs[0])
+					if tv := info.Types[x.Rhs[0]]; tv.Value != nil && tv.Value.Kind() == constant.String && constant.StringVal(tv.Value) == "" {
+						st = "empty"
+					}
+					state[o] = st
+				}
+			case *ast.ReturnStmt:
+				switch {
+				case len(x.Results) == 1:
+					result = classify(x.Results[0])
+				case len(x.Results) == 0 && results != nil && len(results.List) == 1 && len(results.List[0].Names) == 1:
+					result = state[info.Defs[results.List[0].Names[0]]]
+					if result == "" {
+						result = "other"
+					}
+				default:
+					unknown = true
+				}
+				return true
+			case *ast.DeclStmt:
+				// var s string
+			default:
+				unknown = true
+				return true
+			}
+		}
+		return false
+	}
+	if !exec(fd.Body.List) {
+		return "other"
+	}
+	if unknown {
+		return "unknown"
+	}
+	return result
 }
